@@ -1657,3 +1657,110 @@ mod tests {
         );
     }
 }
+
+#[cfg(olson_sean_k_wax_verif)]
+pub trait VerifAnnotation {
+    fn verif_dump(&self) -> String;
+}
+
+#[cfg(olson_sean_k_wax_verif)]
+impl VerifAnnotation for Span {
+    fn verif_dump(&self) -> String {
+        format!("@{}+{}", self.0, self.1)
+    }
+}
+
+#[cfg(olson_sean_k_wax_verif)]
+impl VerifAnnotation for () {
+    fn verif_dump(&self) -> String {
+        String::new()
+    }
+}
+
+#[cfg(olson_sean_k_wax_verif)]
+impl<'t, A> Token<'t, A>
+where
+    A: VerifAnnotation,
+{
+    /// Dumps the token tree in a canonical single-line form (verification hook).
+    pub fn verif_dump(&self) -> String {
+        fn hex(text: &str) -> String {
+            if text.is_empty() {
+                String::from("-")
+            }
+            else {
+                text.chars()
+                    .map(|x| format!("{:x}", x as u32))
+                    .collect::<Vec<_>>()
+                    .join(".")
+            }
+        }
+
+        let annotation = self.annotation.verif_dump();
+        match self.topology {
+            TokenTopology::Leaf(ref leaf) => match leaf {
+                LeafKind::Literal(ref literal) => format!(
+                    "(lit{} {} {})",
+                    annotation,
+                    hex(literal.text()),
+                    u8::from(literal.is_case_insensitive()),
+                ),
+                LeafKind::Separator(_) => format!("(sep{})", annotation),
+                LeafKind::Class(ref class) => format!(
+                    "(cls{} {}{})",
+                    annotation,
+                    u8::from(class.is_negated()),
+                    class
+                        .archetypes()
+                        .iter()
+                        .map(|archetype| match archetype {
+                            Archetype::Character(x) => format!(" (c {:x})", *x as u32),
+                            Archetype::Range(x, y) => {
+                                format!(" (r {:x} {:x})", *x as u32, *y as u32)
+                            },
+                        })
+                        .collect::<String>(),
+                ),
+                LeafKind::Wildcard(Wildcard::One) => format!("(one{})", annotation),
+                LeafKind::Wildcard(Wildcard::ZeroOrMore(Evaluation::Eager)) => {
+                    format!("(zom{} eager)", annotation)
+                },
+                LeafKind::Wildcard(Wildcard::ZeroOrMore(Evaluation::Lazy)) => {
+                    format!("(zom{} lazy)", annotation)
+                },
+                LeafKind::Wildcard(Wildcard::Tree { has_root }) => {
+                    format!("(tree{} {})", annotation, u8::from(*has_root))
+                },
+            },
+            TokenTopology::Branch(ref branch) => {
+                let (name, data) = match branch {
+                    BranchKind::Alternation(_) => ("alt", String::new()),
+                    BranchKind::Concatenation(_) => ("cat", String::new()),
+                    BranchKind::Repetition(ref repetition) => {
+                        let (lower, upper) = repetition.bound_specification();
+                        (
+                            "rep",
+                            format!(
+                                " {} {}",
+                                lower,
+                                upper.map_or_else(|| String::from("inf"), |upper| upper.to_string()),
+                            ),
+                        )
+                    },
+                };
+                format!(
+                    "({}{}{}{})",
+                    name,
+                    annotation,
+                    data,
+                    branch
+                        .tokens()
+                        .into_inner()
+                        .iter()
+                        .map(|token| format!(" {}", token.verif_dump()))
+                        .collect::<String>(),
+                )
+            },
+        }
+    }
+}
